@@ -108,8 +108,8 @@ func isValidTag(s string) bool {
 
 // FieldInfo is the parsed json tag of a struct field.
 type FieldInfo struct {
-	Skip, OmitEmpty, Quoted bool
-	TagName                 string
+	Skip, OmitEmpty, Quoted, OmitZero bool
+	TagName                           string
 }
 
 // ParseField parses the json tag the way encoding/json does.
@@ -128,7 +128,7 @@ func ParseField(sf reflect.StructField) FieldInfo {
 		case "omitempty":
 			fi.OmitEmpty = true
 		case "omitzero":
-			fi.Quoted = true
+			fi.OmitZero = true
 		case "string":
 			ft := sf.Type
 			if ft.Kind() == reflect.Pointer {
@@ -172,7 +172,7 @@ func nats(xs []int) string {
 
 func finfoTerm(goName string, exported, embedded bool, fi FieldInfo) string {
 	return hx.App("mkF", BS(goName), hx.B(exported), hx.B(embedded), optBytes(fi.TagName),
-		hx.B(fi.Skip), hx.B(fi.OmitEmpty), hx.B(fi.Quoted))
+		hx.B(fi.Skip), hx.B(fi.OmitEmpty), hx.B(fi.Quoted), hx.B(fi.OmitZero))
 }
 
 // TypeTerm prints the Coq `ty` descriptor of t.
